@@ -366,6 +366,9 @@ type pongMsg struct {
 // typeTags returns the possible type bytes for the given reflect.Type, which
 // should be a struct. The possible values are separated by a '|' character.
 func typeTags(structType reflect.Type) (tags []byte) {
+	if structType.NumField() == 0 {
+		return nil
+	}
 	tagStr := structType.Field(0).Tag.Get("sshtype")
 
 	for _, tag := range strings.Split(tagStr, "|") {
